@@ -44,6 +44,7 @@ def main():
     ck.add_tlc(mc, "Proxy_mc (UnsupportedRule=pass, CspRule=policylist)")
     negs = {}
     for cfg, inv in (("Proxy_ascoded.cfg", "PassThroughIsIdentity"), ("Proxy_ascoded_csp.cfg", "HtmlGetsExactlyOneScript"),
+                     ("Proxy_ascoded_head.cfg", "HeadIsUntouched"), ("Proxy_ascoded_ctcase.cfg", "HtmlGetsExactlyOneScript"),
                      ("Proxy_neg_noscripting.cfg", "DocumentOnlyAppendedTo"), ("Proxy_neg_length.cfg", "LengthMatchesBody")):
         r = vlib.tlc("Proxy", cfg, workers=1, timeout=300)
         if r.violated != inv:
@@ -53,11 +54,12 @@ def main():
 
     # --- which rules does the tree implement? decided by the real proxy ------------------------------
     # (the probe and the self-test take their configurations -- including the CSP header structure -- from TLC)
-    NCASES = 4 * 4 * 2 * 2 * 11 * 11 * 2
+    NCASES = 4 * 4 * 2 * 2 * 11 * 11 * 2 + 5 * 4 * 2 * 2 * 2 * 2 * 2 + 4 * 2 * 2 * 2 * 2   # GET product + HEAD sub-space + TEXT/HTML sub-space
     sc = vlib.scratch()
 
-    def emit(rule, csprule, name):
-        g = vlib.tlc("Proxy", "g.cfg", files={"g.cfg": cfg_with("Proxy_gen.cfg", UnsupportedRule='"%s"' % rule, CspRule='"%s"' % csprule)},
+    def emit(rule, csprule, headrule, ctrule, name):
+        g = vlib.tlc("Proxy", "g.cfg", files={"g.cfg": cfg_with("Proxy_gen.cfg", UnsupportedRule='"%s"' % rule, CspRule='"%s"' % csprule,
+                                                                 HeadRule='"%s"' % headrule, CtRule='"%s"' % ctrule)},
                      workers=1, timeout=900)
         cs = g.tagged("CASE")
         if not g.ok or len(cs) != NCASES:
@@ -69,11 +71,16 @@ def main():
         return g, cs, path
 
     binp = vlib.go_build("./c20", "c20")
-    gen, cases, cpath = emit("pass", "policylist", "cases0.ndjson")
+    gen, cases, cpath = emit("pass", "policylist", "pass", "caseinsensitive", "cases0.ndjson")
     s = vlib.harness_results(ck, vlib.run([binp, "probe", cpath], check=False))
-    rule, csprule = s.get("rule"), s.get("csprule")
-    if rule not in ("pass", "rewrite") or csprule not in ("firstline", "policylist"):
+    rule, csprule, headrule, ctrule = s.get("rule"), s.get("csprule"), s.get("headrule"), s.get("ctrule")
+    if rule not in ("pass", "rewrite") or csprule not in ("firstline", "policylist") or headrule not in ("pass", "rewrite") \
+            or ctrule not in ("casesensitive", "caseinsensitive"):
         raise vlib.InfraError("probe: %r" % s)
+    ck.set("head_rule_of_tree", headrule)
+    ck.set("content_type_gate_of_tree", ctrule)
+    vlib.log("tree answers HEAD for an html page by:", headrule, "-", s.get("headdetail", ""))
+    vlib.log("tree's text/html gate is:", ctrule, "-", s.get("ctdetail", ""))
     ck.set("unsupported_encoding_rule_of_tree", rule)
     ck.set("csp_rule_of_tree", csprule)
     vlib.log("tree handles an unsupported Content-Encoding by:", rule, "-", s.get("detail", ""))
@@ -90,9 +97,9 @@ def main():
         ck.set("binding_selftest", "3 corrupted predictions reported, the uncorrupted twin accepted")
 
     # --- GEN: every configuration, end to end --------------------------------------------------------
-    if (rule, csprule) != ("pass", "policylist"):
-        gen, cases, cpath = emit(rule, csprule, "cases.ndjson")
-    ck.add_tlc(gen, "Proxy_gen (case emission, UnsupportedRule=%s, CspRule=%s)" % (rule, csprule))
+    if (rule, csprule, headrule, ctrule) != ("pass", "policylist", "pass", "caseinsensitive"):
+        gen, cases, cpath = emit(rule, csprule, headrule, ctrule, "cases.ndjson")
+    ck.add_tlc(gen, "Proxy_gen (case emission, UnsupportedRule=%s, CspRule=%s, HeadRule=%s, CtRule=%s)" % (rule, csprule, headrule, ctrule))
     p = vlib.run([binp, "cases", cpath, str(ck.seed), ck.tier], check=False, timeout=3000)
     s = vlib.harness_results(ck, p)
     if s["cases"] != len(cases) or s["cases_replayed"] != len(cases):
@@ -115,7 +122,7 @@ def main():
     ck.set("max_body_bytes", s["max_body_bytes"])
     ck.set("traces_validated_against_impl", s["exchanges"])
     ck.set("exhaustive", True)
-    ck.set("bounds", {"content_types": 4, "encodings": 4, "requests": 2, "skip_marker": 2, "csp_shapes": 11, "body_shapes": 11,
+    ck.set("bounds", {"content_types": 5, "methods": "GET; HEAD x {full,empty} x {none,scriptsrc}", "encodings": 4, "requests": 2, "skip_marker": 2, "csp_shapes": 11, "body_shapes": 11,
                       "accept_encoding": 2, "sizes": "0, ~1 KiB, 4095..4097, 32767..32769, 65536, 3 MiB (seeded subset)"})
     ck.set("rule", "every abstract configuration (%d)" % NCASES + "  is replayed end to end on the real proxy at >= 2 body sizes; "
                    "documents are well-formed pages stable under x/net/html parse/render/parse")
